@@ -234,7 +234,12 @@ def specs(tier):
         for be in ('cvxpy', 'mosek'):
             s2 = dict(s)
             s2['backend'] = be
-            out.append(dict(id="%s-%s" % (name, be), spec=s2))
+            c = dict(id="%s-%s" % (name, be), spec=s2)
+            if s2.get('dimred') or s2.get('verbose'):
+                # the eigenvalue-threshold / message-selection comparisons of these configurations multiply into tens of
+                # thousands of paths when both sides are explored: always the 'first' cut here (see DESIGN 9.2)
+                c['output_branches'] = 'first'
+            out.append(c)
 
     add("gd")
     add("gd-verbose", verbose=1)
